@@ -437,6 +437,11 @@ class GroupCopyFromExtent(_ForwardsExtent):
         new_group.attrs["workspace"] = Opaque("copy_group.workspace")
 
         def copy(I, a, kw):
+            if ctx.case == "the-copy-lands-in-the-group-itself":
+                # parent=self: the new group joins the very child list that is about to be walked
+                new_group.attrs["copy_from_extent"] = Opaque("copy_group.copy_from_extent")
+                new_group.attrs["copy_from_extent"].maybe_method = lambda I2, a2, kw2: (I2.event("copy-of-the-copy"), Opaque("copy-of-the-copy"))[1]
+                me.attrs["children"].items.append(new_group)
             return new_group
 
         me.attrs["copy"] = Opaque("self.copy")
@@ -457,7 +462,7 @@ class GroupCopyFromExtent(_ForwardsExtent):
 
         orig_child = children.child
         children.child = lambda tag, **kw: child_factory(tag)
-        if ctx.case == "two-children":
+        if ctx.case in ("two-children", "the-copy-lands-in-the-group-itself"):
             # exactly two children (an object and a nested group, say): the loop is unrolled, so that "every child is
             # asked" can be stated on every path -- whatever the group's own bounding box says
             me.attrs["children"] = PList([child_factory("child-0"), child_factory("child-1")])
@@ -467,13 +472,16 @@ class GroupCopyFromExtent(_ForwardsExtent):
         return [me, extent], {"inverse": inverse, "copy_children": True}
 
     def cases(self):
-        return ["any-children", "two-children"]
+        return ["any-children", "two-children", "the-copy-lands-in-the-group-itself"]
 
     def post(self, ctx, result):
         e = ctx.env
         evs = self.events_of(ctx, "child.copy_from_extent")
         ok = all(ev["extent"] is e["extent"] and ev["inverse"] is e["inverse"] and ev["parent"] is e["new_group"] and ev["copy_children"] is True for ev in evs)
         ctx.oblige("every-child-selected-with-the-same-extent-and-inverse-flag-into-the-copy", ok)
+        if ctx.case == "the-copy-lands-in-the-group-itself":
+            ctx.oblige("the-children-copied-are-those-present-at-the-request", len(evs) == 2 and not self.events_of(ctx, "copy-of-the-copy"),
+                       note="the new group was found among the children to copy: it is copied into itself (and that copy into itself ...)")
         if ctx.case == "two-children":
             ctx.oblige("no-child-is-skipped-whatever-the-result", len(evs) == 2,
                        note="the group answered (possibly with nothing) without asking each of its children: only the children know whether an element qualifies (nested groups have no selection of their own)")
